@@ -112,4 +112,178 @@ theorem parseRRs_complete {bs : Bytes} {sect : Sect} (n : Nat) :
           simp only [P.pure_apply, hiList, List.foldr_cons, e1]
         · simp only [Rfc.rrsToRec, t1, t2]
 
+theorem mul16_eq_shl (x : Nat) : x * 16 = x <<< 4 := by rw [Nat.shiftLeft_eq]
+
+theorem or_mul16 (x y : Nat) : (x ||| y) * 16 = x * 16 ||| y * 16 := by
+  rw [mul16_eq_shl, mul16_eq_shl, mul16_eq_shl, Nat.shiftLeft_or_distrib]
+
+/-- extended RCODE octet of a list of RRs, as `Rfc.Msg.extRcode` computes it -/
+def extList (ms : List Rfc.RR) : Nat :=
+  (ms.filter (·.type = Rfc.typeOPT)).foldl (fun acc rr => acc ||| rr.ttl / 16777216) 0
+
+theorem foldl_or_init (l : List Rfc.RR) (a : Nat) :
+    l.foldl (fun acc rr => acc ||| rr.ttl / 16777216) a =
+      a ||| l.foldl (fun acc rr => acc ||| rr.ttl / 16777216) 0 := by
+  induction l generalizing a with
+  | nil => simp
+  | cons x l ih =>
+    simp only [List.foldl_cons]
+    rw [ih (a ||| x.ttl / 16777216), ih (0 ||| x.ttl / 16777216), Nat.zero_or, Nat.or_assoc]
+
+theorem extList_cons (m : Rfc.RR) (ms : List Rfc.RR) :
+    extList (m :: ms) = (if m.type = 41 then m.ttl / 16777216 else 0) ||| extList ms := by
+  unfold extList
+  by_cases h : m.type = 41
+  · simp only [List.filter_cons, Rfc.typeOPT, h, decide_true, ↓reduceIte, List.foldl_cons, Nat.zero_or]
+    rw [foldl_or_init]
+  · simp only [List.filter_cons, Rfc.typeOPT, h, decide_false, Bool.false_eq_true, ↓reduceIte, Nat.zero_or]
+
+theorem hiList_eq (ms : List Rfc.RR) : hiList ms = extList ms * 16 := by
+  induction ms with
+  | nil => rfl
+  | cons m ms ih =>
+    rw [extList_cons, or_mul16, ← ih]
+    simp only [hiList, List.foldr_cons, optHi]
+    by_cases h : m.type = 41 <;> simp [h]
+
+theorem hiList_append (a b : List Rfc.RR) : hiList (a ++ b) = hiList a ||| hiList b := by
+  induction a with
+  | nil => simp [hiList]
+  | cons m a ih =>
+    simp only [List.cons_append, hiList, List.foldr_cons] at ih ⊢
+    rw [ih, Nat.or_assoc]
+
+theorem rcode_or (rc4 e : Nat) (h : rc4 < 16) : rc4 ||| e * 16 = e * 16 + rc4 := by
+  rw [mul16_eq_shl, Nat.or_comm]
+  exact (Nat.shiftLeft_add_eq_or_of_lt (i := 4) h e).symm
+
+/-- the header as the model reads it, in closed form -/
+theorem parseHeader_eq {bs : Bytes} (h12 : 12 ≤ bs.size) :
+    parseHeader bs 0 =
+      if opcodeValid ((be16At bs 2 (by omega) >>> 11) &&& 0xf) = true then
+        .ok { id := be16At bs 0 (by omega), flags := headerFlags (be16At bs 2 (by omega)),
+              opcode := (be16At bs 2 (by omega) >>> 11) &&& 0xf, rawRcode := be16At bs 2 (by omega) &&& 0xf,
+              qdcount := be16At bs 4 (by omega), ancount := be16At bs 6 (by omega),
+              nscount := be16At bs 8 (by omega), arcount := be16At bs 10 (by omega) } 12
+      else .err .eformerr := by
+  unfold parseHeader
+  have f : ∀ (o : Nat) (h : o + 2 ≤ bs.size), fetchBe16 bs o = .ok (be16At bs o h) (o + 2) := by
+    intro o h; rw [fetchBe16_eq (by omega), dif_pos h]
+  rw [P.bind_ok (f 0 (by omega)), P.bind_ok (f 2 (by omega)), P.bind_ok (f 4 (by omega)),
+    P.bind_ok (f 6 (by omega)), P.bind_ok (f 8 (by omega)), P.bind_ok (f 10 (by omega))]
+  have hr0 : rcodeValid 0 = true := by decide
+  by_cases hop : opcodeValid ((be16At bs 2 (by omega) >>> 11) &&& 0xf) = true
+  · rw [if_pos hop, if_neg (by simp [hop, hr0])]; rfl
+  · rw [if_neg hop, if_pos (by simp [hop])]; rfl
+
+theorem parseHeader_short {bs : Bytes} (h12 : ¬ 12 ≤ bs.size) : ∃ e, parseHeader bs 0 = .err e := by
+  have hs := safe_parseHeader (bs := bs) (off := 0) (Nat.zero_le _)
+  cases hr : parseHeader bs 0 with
+  | err e => exact ⟨e, rfl⟩
+  | fault k => exact (hs.not_fault hr).elim
+  | ok hd o =>
+    exfalso
+    unfold parseHeader at hr
+    obtain ⟨_, o1, g1, hr⟩ := P.bind_eq_ok hr
+    obtain ⟨_, o2, g2, hr⟩ := P.bind_eq_ok hr
+    obtain ⟨_, o3, g3, hr⟩ := P.bind_eq_ok hr
+    obtain ⟨_, o4, g4, hr⟩ := P.bind_eq_ok hr
+    obtain ⟨_, o5, g5, hr⟩ := P.bind_eq_ok hr
+    obtain ⟨_, o6, g6, hr⟩ := P.bind_eq_ok hr
+    have e1 := fetchBe16_ok g1
+    have e2 := fetchBe16_ok g2
+    have e3 := fetchBe16_ok g3
+    have e4 := fetchBe16_ok g4
+    have e5 := fetchBe16_ok g5
+    have e6 := fetchBe16_ok g6
+    omega
+
+theorem classValid_query (c t : Nat) (ht : t < 65536) :
+    classValid c t true = (decide (c = 1) || decide (c = 3) || decide (c = 4) || decide (c = 254) || decide (c = 255)) := by
+  have h1 : t ≠ 65536 := by omega
+  by_cases h24 : t = 24
+  · subst h24
+    simp [classValid, List.contains_eq_mem, List.mem_cons, Bool.or_assoc]
+  · simp [classValid, List.contains_eq_mem, List.mem_cons, Bool.or_assoc, h24, h1]
+
+theorem recTypeValid_query (t : Nat) (ht : t < 65536) : recTypeValid t true = true := by
+  have h1 : t ≠ 65536 := by omega
+  simp [recTypeValid, recTypeInvalidQuery, h1]
+
+theorem parseQd_sound {bs : Bytes} {p p' : Nat} {q : Question} (hp : p ≤ bs.size)
+    (hr : parseQd bs p = .ok q p') :
+    ∃ rq, Rfc.decodeQuestion bs p = some (rq, p') ∧ rq.toRec = q ∧ p' ≤ bs.size ∧
+      (rq.qclass = 1 ∨ rq.qclass = 3 ∨ rq.qclass = 4 ∨ rq.qclass = 254 ∨ rq.qclass = 255) := by
+  have hb := (safe_parseQd hp).ok hr
+  unfold parseQd at hr
+  obtain ⟨name, o1, g1, hr⟩ := P.bind_eq_ok hr
+  rw [parseName_eq_rfc bs p hp] at g1
+  cases hn : Rfc.name bs p with
+  | none => rw [hn] at g1; simp at g1
+  | some r =>
+    obtain ⟨labels, q1⟩ := r
+    rw [hn] at g1
+    injection g1 with g1 go; subst g1; subst go
+    have hq := name_next_le hp hn
+    obtain ⟨qtype, o2, g2, hr⟩ := P.bind_eq_ok hr
+    obtain ⟨qclass, o3, g3, hr⟩ := P.bind_eq_ok hr
+    obtain ⟨e2, l2⟩ := fetchBe16_ok g2
+    subst e2
+    obtain ⟨e3, l3⟩ := fetchBe16_ok g3
+    subst e3
+    rw [fetchBe16_eq hq.2, dif_pos (by omega)] at g2
+    injection g2 with g2 _; subst g2
+    rw [fetchBe16_eq (by omega), dif_pos (by omega)] at g3
+    injection g3 with g3 _; subst g3
+    split at hr
+    · simp at hr
+    · rename_i hvalid
+      simp only [P.pure_apply] at hr
+      injection hr with hr ho; subst hr; subst ho
+      simp only [not_or, Bool.not_eq_true, Bool.not_eq_eq_eq_not, Bool.not_not, Bool.not_true,
+        Bool.not_eq_false] at hvalid
+      refine ⟨⟨labels, be16At bs q1 (by omega), be16At bs (q1 + 2) (by omega)⟩, ?_, rfl, by omega, ?_⟩
+      · unfold Rfc.decodeQuestion
+        rw [hn]
+        simp only [u16At_eq]
+        rw [dif_pos (by omega), dif_pos (by omega)]
+      · have hc := hvalid.2
+        have hlt := be16At_lt (bs := bs) (off := q1 + 2) (by omega)
+        rw [classValid_query _ _ (be16At_lt _)] at hc
+        simpa [Bool.or_eq_true, or_assoc] using hc
+
+theorem parseQd_complete {bs : Bytes} {p p' : Nat} {rq : Rfc.Question} (hp : p ≤ bs.size)
+    (hd : Rfc.decodeQuestion bs p = some (rq, p'))
+    (hc : rq.qclass = 1 ∨ rq.qclass = 3 ∨ rq.qclass = 4 ∨ rq.qclass = 254 ∨ rq.qclass = 255) :
+    parseQd bs p = .ok rq.toRec p' ∧ p' ≤ bs.size := by
+  unfold Rfc.decodeQuestion at hd
+  cases hn : Rfc.name bs p with
+  | none => rw [hn] at hd; simp at hd
+  | some r =>
+    obtain ⟨labels, q1⟩ := r
+    rw [hn] at hd
+    simp only [u16At_eq] at hd
+    have hq := name_next_le hp hn
+    by_cases h4 : q1 + 2 + 2 ≤ bs.size
+    · rw [dif_pos (by omega), dif_pos h4] at hd
+      simp only [Option.some.injEq, Prod.mk.injEq] at hd
+      obtain ⟨rfl, rfl⟩ := hd
+      refine ⟨?_, by omega⟩
+      unfold parseQd
+      rw [P.bind_ok (by rw [parseName_eq_rfc bs p hp, hn]),
+        P.bind_ok (by rw [fetchBe16_eq hq.2, dif_pos (by omega)]),
+        P.bind_ok (by rw [fetchBe16_eq (by omega), dif_pos (by omega)])]
+      have h1 : recTypeValid (be16At bs q1 (by omega)) true = true := recTypeValid_query _ (be16At_lt _)
+      have h2 : classValid (be16At bs (q1 + 2) (by omega)) (be16At bs q1 (by omega)) true = true := by
+        rw [classValid_query _ _ (be16At_lt _)]
+        simp only at hc
+        simp only [Bool.or_eq_true, decide_eq_true_eq]
+        omega
+      rw [if_neg (by simp [h1, h2])]
+      rfl
+    · rw [dif_neg h4] at hd
+      split at hd
+      · rename_i h1 h2; simp at h2
+      · simp at hd
+
 end Cares.Dns
